@@ -16,7 +16,14 @@ for m in $OUT/m[0-9]; do
   timeout 3000 cargo test --workspace --no-fail-fast --offline > /tmp/seed/test$R-$ID-$k.log 2>&1
   echo "suite: $(grep -E '^test result' /tmp/seed/test$R-$ID-$k.log | awk '{p+=$4; f+=$6} END {print p" passed "f" failed"}') ; build errors: $(grep -c '^error' /tmp/seed/test$R-$ID-$k.log)" >> $RES
   timeout 3000 cargo build -q --offline -p koto_cli 2>/dev/null
-  if [ -f $m/demo.koto ]; then
+  filt() { grep -v "^warning\|^ *Compiling\|^ *Finished\|^ *Running\|^ *Blocking\|^ *|\|^ *= \|^ *--> \|^$"; }
+  if [ -f $m/demo.sh ]; then
+    # host-side demo: the sub-agent's demo.sh, run from the worktree root on the mutated tree, then on the original
+    (cd $WT && timeout 1500 sh $m/demo.sh 2>&1 | filt > /tmp/seed/demo$R-$ID-$k.mut)
+    git checkout -q -- . ; git clean -fdq -e target
+    (cd $WT && timeout 1500 sh $m/demo.sh 2>&1 | filt > /tmp/seed/demo$R-$ID-$k.orig)
+    if cmp -s /tmp/seed/demo$R-$ID-$k.orig /tmp/seed/demo$R-$ID-$k.mut; then echo "demo: SAME output on original and mutated build (demo.sh)" >> $RES; else echo "demo: differs (demo.sh; orig vs mutated):" >> $RES; diff /tmp/seed/demo$R-$ID-$k.orig /tmp/seed/demo$R-$ID-$k.mut | head -12 >> $RES; fi
+  elif [ -f $m/demo.koto ]; then
     (cd $m && timeout 20 /tmp/seed/koto-orig$R-$ID demo.koto > /tmp/seed/demo$R-$ID-$k.orig 2>&1; timeout 20 $WT/target/debug/koto demo.koto > /tmp/seed/demo$R-$ID-$k.mut 2>&1)
     if cmp -s /tmp/seed/demo$R-$ID-$k.orig /tmp/seed/demo$R-$ID-$k.mut; then echo "demo: SAME output on original and mutated build" >> $RES; else echo "demo: differs (orig vs mutated):" >> $RES; diff /tmp/seed/demo$R-$ID-$k.orig /tmp/seed/demo$R-$ID-$k.mut | head -12 >> $RES; fi
   else echo "demo: no demo.koto ($(ls $m | tr '\n' ' '))" >> $RES; fi
